@@ -12,7 +12,7 @@ package vs
 import (
 	"fmt"
 	"runtime"
-	"sort"
+	"strconv"
 	"strings"
 )
 
@@ -85,6 +85,9 @@ type G struct {
 	hash    uint64
 	body    bool
 	idseq   int
+	path    []int32
+	idh     uint64
+	sitePC  uintptr
 }
 
 type Policy int
@@ -157,6 +160,7 @@ type World struct {
 	timers  []*vtimer
 	tseq    int
 	ch      Chooser
+	altBuf  []ThreadAlt
 	opts    Options
 	fin     chan struct{}
 	ended   bool
@@ -231,11 +235,14 @@ func (w *World) newG(parent *G, site string) *G {
 	if parent == nil {
 		g.ID = "0"
 		g.hash = 1
+		g.path = []int32{0}
 	} else {
-		g.ID = fmt.Sprintf("%s.%d", parent.ID, parent.nspawn)
+		g.ID = parent.ID + "." + strconv.Itoa(parent.nspawn)
 		g.hash = mix(parent.hash, uint64(parent.nspawn), 0x5157)
+		g.path = append(append(make([]int32, 0, len(parent.path)+1), parent.path...), int32(parent.nspawn))
 		parent.nspawn++
 	}
+	g.idh = hashStr(g.ID)
 	w.gs = append(w.gs, g)
 	return g
 }
@@ -252,7 +259,7 @@ func (w *World) launch(g *G, f func()) {
 				buf := make([]byte, 8192)
 				n := runtime.Stack(buf, false)
 				w.res.Panic = fmt.Sprintf("%v", r)
-				w.res.PanicG = g.ID + " (" + g.Site + ")\n" + trimStack(string(buf[:n]))
+				w.res.PanicG = g.ID + " (" + g.site() + ")\n" + trimStack(string(buf[:n]))
 				w.ended = true
 			}
 			g.done = true
@@ -294,16 +301,24 @@ func Go(f func()) {
 	if self.killed {
 		runtime.Goexit()
 	}
-	site := ""
-	if _, file, line, ok := runtime.Caller(1); ok {
-		site = shortFile(file) + ":" + itoa(line)
+	g := w.newG(self, "")
+	var pcs [1]uintptr
+	if runtime.Callers(2, pcs[:]) == 1 {
+		g.sitePC = pcs[0]
 	}
-	g := w.newG(self, site)
 	w.launch(g, f)
 	w.resumed = append(w.resumed, g)
 }
 
-func itoa(i int) string { return fmt.Sprintf("%d", i) }
+func itoa(i int) string { return strconv.Itoa(i) }
+
+func (g *G) site() string {
+	if g.Site == "" && g.sitePC != 0 {
+		f, _ := runtime.CallersFrames([]uintptr{g.sitePC}).Next()
+		g.Site = shortFile(f.File) + ":" + itoa(f.Line)
+	}
+	return g.Site
+}
 
 func shortFile(f string) string {
 	if i := strings.Index(f, "/repo/"); i >= 0 {
@@ -415,7 +430,7 @@ func (w *World) decide() *G {
 			}
 		}
 	}
-	var alts []ThreadAlt
+	alts := w.altBuf[:0]
 	curEnabled := false
 	for _, g := range w.gs {
 		if g.done || g.pending == nil || g.pending.kind == opQuiesce {
@@ -429,10 +444,17 @@ func (w *World) decide() *G {
 			}
 		}
 	}
-	sort.Slice(alts, func(i, j int) bool { return idLess(alts[i].G.ID, alts[j].G.ID) })
-	if curEnabled {
-		alts = append([]ThreadAlt{{G: w.cur}}, alts...)
+	for i := 1; i < len(alts); i++ {
+		for j := i; j > 0 && gLess(alts[j].G, alts[j-1].G); j-- {
+			alts[j], alts[j-1] = alts[j-1], alts[j]
+		}
 	}
+	if curEnabled {
+		alts = append(alts, ThreadAlt{})
+		copy(alts[1:], alts)
+		alts[0] = ThreadAlt{G: w.cur}
+	}
+	w.altBuf = alts
 	if len(alts) == 0 {
 		// quiesce waiters run only when nothing else can
 		for _, g := range w.gs {
@@ -478,17 +500,13 @@ func (w *World) decide() *G {
 	return g
 }
 
-func idLess(a, b string) bool {
-	as, bs := strings.Split(a, "."), strings.Split(b, ".")
-	for i := 0; i < len(as) && i < len(bs); i++ {
-		if as[i] != bs[i] {
-			if len(as[i]) != len(bs[i]) {
-				return len(as[i]) < len(bs[i])
-			}
-			return as[i] < bs[i]
+func gLess(a, b *G) bool {
+	for i := 0; i < len(a.path) && i < len(b.path); i++ {
+		if a.path[i] != b.path[i] {
+			return a.path[i] < b.path[i]
 		}
 	}
-	return len(as) < len(bs)
+	return len(a.path) < len(b.path)
 }
 
 func (w *World) describe(o *op) string {
@@ -510,17 +528,18 @@ func (w *World) describe(o *op) string {
 
 // StateKey identifies the happens-before trace of the prefix executed so far.
 func (w *World) StateKey() uint64 {
-	hs := make([]uint64, 0, len(w.gs)+2)
+	// goroutines are identified by schedule-independent ids, so a commutative combination suffices
+	var sum, xor uint64
 	for _, g := range w.gs {
 		st := uint64(0)
 		if g.done {
 			st = 1
 		}
-		hs = append(hs, mix(hashStr(g.ID), g.hash, st))
+		x := mix(g.idh, g.hash, st)
+		sum += x
+		xor ^= x * 0x9e3779b97f4a7c15
 	}
-	sort.Slice(hs, func(i, j int) bool { return hs[i] < hs[j] })
-	h := mix(uint64(w.now), hashStr(w.cur.ID), w.monitor)
-	return mix(h, hs...)
+	return mix(uint64(w.now), w.cur.idh, w.monitor, sum, xor, uint64(len(w.gs)))
 }
 
 func (w *World) finishResult() {
@@ -531,7 +550,7 @@ func (w *World) finishResult() {
 		if g.done {
 			continue
 		}
-		a := AliveG{ID: g.ID, Site: g.Site, Name: g.Name}
+		a := AliveG{ID: g.ID, Site: g.site(), Name: g.Name}
 		if g.pending != nil {
 			a.Op = opNames[g.pending.kind]
 			if g.pending.kind == opNop {
@@ -642,7 +661,7 @@ func Alive() []AliveG {
 		if g.done || g == w.running {
 			continue
 		}
-		a := AliveG{ID: g.ID, Site: g.Site, Name: g.Name}
+		a := AliveG{ID: g.ID, Site: g.site(), Name: g.Name}
 		if g.pending != nil {
 			a.Op = opNames[g.pending.kind]
 			a.Enabled = w.enabled(g, g.pending)
@@ -681,3 +700,11 @@ func IDOr(prefix string, f func() string) string {
 }
 
 var nativeSeq int
+
+// ObsCount is the current length of the observation log (the index of the next observation).
+func ObsCount() int {
+	if W == nil {
+		return 0
+	}
+	return len(W.res.Obs)
+}
